@@ -8,7 +8,7 @@ From Ristretto Require Import Base.Word.
 Local Open Scope Z_scope.
 
 Record sitem := { si_conf : N; si_val : N; si_exp : Z }.
-Definition store := gmap N sitem.
+Notation store := (gmap N sitem).
 
 Record emap := { em_buckets : gmap Z (gmap N N); em_last : Z }.
 
